@@ -46,6 +46,8 @@ def gen(rng, tier):
         spec["edit"] = ed
     elif rng.random() < 0.2 and spec["cfg"].get("absence"):
         spec["remove"] = True  # the absence steps are deleted from the logs afterwards: every level must still add up
+    if spec.get("history") is None and spec.get("backward") is None and rng.random() < 0.1:
+        spec["getters_first"] = True  # the unfiltered get_*_list helpers are called before the run
     if rng.random() < 0.12:
         spec["reload_after"] = True  # ... and the accounting is a property of the logs, also of logs read back from a file
     return spec
@@ -60,7 +62,7 @@ def extra_candidates(spec):
         c = dict(spec)
         c.pop("backward")
         yield c
-    for k_ in ("remove", "reload_after"):
+    for k_ in ("remove", "reload_after", "getters_first"):
         if spec.get(k_):
             c = dict(spec)
             c.pop(k_)
